@@ -112,9 +112,15 @@ def optional_covers(name):
 
 
 def needs_native_confirmation(name, desc):
-    """Memory-safety verdicts of CBMC's pointer checks (use after free, double free, out of bounds)
-    are not observable in a native run; for harnesses whose oracle they are (C16) they are reported
-    without native confirmation."""
+    """Memory-safety verdicts of CBMC's pointer checks (use after free, double free, out of bounds) do not crash
+    a native run; they are confirmed by replaying the counterexample under valgrind memcheck (tools/mqv.py).
+    Only where valgrind is missing are they reported unconfirmed for the harnesses whose oracle they are
+    (C16/C17).  (Round 1 reported them unconfirmed always; a pointer-check 'failure' of c16_add_vs_scan in a
+    run with NO injected operation, which appeared only when an unrelated edit changed the crate hash and
+    with it CBMC's symbol order, showed that this is not safe: DESIGN.md section 12, false alarms.)"""
+    import shutil
+    if shutil.which("valgrind"):
+        return True
     h = HARNESSES.get(name, {})
     if h.get("builtin_oracle") and not re.match(r"^C\d\d", desc):
         return False
@@ -522,9 +528,6 @@ for n, w in (("c16_scan_vs_add", "the writer's announce+scan preempted everywher
     H(n, M, "C16", ["C16", "C17"], "quick",
       "REAL MemoryManager + ReadCursor on the harness stack, 19-20 pre-loaded retirements: " + w + "; CBMC pointer checks are the oracle",
       "2 tokens, depth 1, budget 1", rules=MEMRULES, fp_restrict=FP, builtin_oracle=True, unwind=6, mem_gb=24)
-H("c03_scan_vs_add_unit", M, "C03", ["C03", "C10", "C16"], "thorough",
-  "unit level, REAL ReadCursor on the harness stack: the writer's recomputation of the slowest stream (get_max_diff, the seqlock-style scan of the stream list) preempted everywhere (shared accesses and allocation calls) by add_stream on the parent stream and by the parent's consumer taking a value; a scan that returns after add_stream has returned must cover the new stream's position; afterwards the sequential scan must equal the slowest stream",
-  "W=2, ring 2, depth 1, budget 2, up to 2 operations per site; memory manager stubbed", rules=ADDRULES)
 for n in ("c16_protocol_o0", "c16_protocol_o1"):
     HARNESSES[n]["tier"] = "thorough"
     HARNESSES[n]["timeout"] = 3000
